@@ -455,7 +455,8 @@ impl<'t, 'a, 'b> G<'t, 'a, 'b> {
                 }
             },
             _ => {
-                let n = 1 + self.t.below(6);
+                // now and then enough lines to push the line numbers past 255
+                let n = if self.t.chance(1, 16) { 260 } else { 1 + self.t.below(6) };
                 ((0..n).map(|_| (*self.t.pick(&["", "", "   ", "\t"])).to_string()).collect(), vec![])
             }
         };
@@ -590,7 +591,10 @@ const SYNTAX_DEF: [&str; 21] = [
     "{x} :: }",
 ];
 const SYNTAX_BLOCK: [&str; 7] = ["if do", "loop 1 +", "{x} = ", "{x} += )", "ret )", "1 +", "do )"];
-const UNRESOLVED_DEF: [&str; 9] = [
+const UNRESOLVED_DEF: [&str; 12] = [
+    "Zb{x} :: blob { a: Nope }",
+    "Ze{x} :: enum A Nope end",
+    "{x} :: fn a: int -> Nope do end",
     "{x} :: nope + 1",
     "{x} :: nope(3)",
     "{x}: Nope = 1",
@@ -602,7 +606,7 @@ const UNRESOLVED_DEF: [&str; 9] = [
     "{x} :: 1 + nope()",
 ];
 const UNRESOLVED_BLOCK: [&str; 4] = ["nope(3)", "nope = 1", "nope += 1", "print(nope)"];
-const OPERATOR_DEF: [&str; 17] = [
+const OPERATOR_DEF: [&str; 16] = [
     "{x} :: 1 + \"a\"",
     "{x} :: \"a\" + 1",
     "{x} :: 1 - \"a\"",
@@ -612,7 +616,6 @@ const OPERATOR_DEF: [&str; 17] = [
     "{x} :: 1 == \"a\"",
     "{x} :: 1 == 1.0",
     "{x} :: not 1",
-    "{x} :: -\"a\"",
     "{x} :: true and 1",
     "{x} :: 1 or false",
     "{x} :: true + 1",
@@ -636,6 +639,13 @@ const ANNOTATION_DEF: [&str; 12] = [
     "{x} :: fn -> int do ret \"s\" end",
     "{x}: str = \"åäö\" + 1",
 ];
+/// expression plants (own line inside a multi-line construct); the second set leaves the error token to whatever follows on
+/// the line, so it needs a `,` after it or a context that does not skip newlines
+const SYNTAX_EXPR: [&str; 5] = ["1 2", "* 2", "@", "å", "1 :: 2"];
+const SYNTAX_EXPR_DANGLING: [&str; 2] = ["zy.", "1 +"];
+const UNRESOLVED_EXPR: [&str; 5] = ["nope", "nope(1)", "Nope.A", "1 + nope", "nope.y"];
+const OPERATOR_EXPR: [&str; 6] = ["1 + \"a\"", "\"a\" * 2", "not 1", "1 < \"a\"", "true + 1", "\"åäö\" - 1"];
+const UNARY_MINUS: [&str; 4] = ["-\"a\"", "-true", "-\"åäö\"", "-[1]"];
 const OUTER_STMT: [&str; 6] = ["break", "print(1)", "1 + 1", "{x} = 1", "ret 1", "<!>"];
 const TRAILERS: [&str; 7] = ["", "", "", " // note", "   ", "\t", " // åäö 😀"];
 
@@ -654,8 +664,9 @@ pub fn generate(t: &mut Tape, _tier: Tier) -> Case {
     };
     let mut g = G { t, n: 0 };
     let nfiles = 1 + g.t.weighted(&[3, 4, 3]);
-    let third = if g.t.bool() { ("sub/inner", "inner", "/p/sub/inner.sy") } else { ("third", "third", "/p/third.sy") };
-    let specs = [("", "", "/p/main.sy", 'm'), ("other", "other", "/p/other.sy", 'p'), (third.0, third.1, third.2, 'q')];
+    let third = *g.t.pick(&[("third", "third", "/p/third.sy"), ("sub/inner", "inner", "/p/sub/inner.sy"), ("sub/", "sub", "/p/sub/exports.sy"), ("/third", "third", "/p/third.sy")]);
+    let second = *g.t.pick(&[("other", "other", "/p/other.sy"), ("other", "other", "/p/other.sy"), ("/other", "other", "/p/other.sy")]);
+    let specs = [("", "", "/p/main.sy", 'm'), (second.0, second.1, second.2, 'p'), (third.0, third.1, third.2, 'q')];
     let mut files: Vec<FileGen> = specs[..nfiles]
         .iter()
         .map(|(u, ns, p, l)| FileGen {
@@ -699,6 +710,11 @@ pub fn generate(t: &mut Tape, _tier: Tier) -> Case {
     for fi in 0..nfiles {
         g.import_pieces(&mut files, fi);
     }
+    if nfiles >= 2 && g.t.chance(1, 6) {
+        // an import cycle is legal: the imported module imports main back (and does not use it)
+        let pos = g.t.below(files[1].pieces.len() + 1);
+        files[1].pieces.insert(pos, Piece { role: "import".into(), head: vec!["use main as mm".into()], defines: vec![("mm".into(), 0)], ..Default::default() });
+    }
     // where the plant goes
     let pfile = if nfiles > 1 && g.t.chance(1, 2) { 1 + g.t.below(nfiles - 1) } else { 0 };
     for fi in 0..nfiles {
@@ -709,7 +725,7 @@ pub fn generate(t: &mut Tape, _tier: Tier) -> Case {
 }
 
 fn gen_plant(g: &mut G, files: &mut Vec<FileGen>, pfile: usize, avoid_known: bool) -> Plant {
-    let kw: [u32; 11] = [20, 12, 10, 10, 10, 10, 10, 8, 8, if avoid_known { 0 } else { 14 }, if avoid_known { 0 } else { 8 }];
+    let kw: [u32; 12] = [20, 12, 10, 10, 10, 10, 10, 8, 8, if avoid_known { 0 } else { 14 }, if avoid_known { 0 } else { 8 }, 5];
     let kind = KINDS[g.t.weighted(&kw)];
     let k = g.fresh();
     let x = format!("zx{}", k);
@@ -756,6 +772,65 @@ fn gen_plant(g: &mut G, files: &mut Vec<FileGen>, pfile: usize, avoid_known: boo
         p.piece = late(g, npieces);
     }
     let sub = |s: &str| s.replace("{x}", &x);
+    // known finding: the deferred check of unary minus is reported on the first line of the enclosing construct; the
+    // avoid switch keeps unary-minus plants out of multi-line constructs
+    let expr_ctx = match kind {
+        "syntax" | "unresolved" | "operator" => g.t.chance(1, 4),
+        "unary-minus" => !avoid_known && g.t.chance(2, 3),
+        _ => false,
+    };
+    if expr_ctx {
+        // the plant is an expression on its own line inside a multi-line construct
+        // (an int list around a unary-minus plant would add an element mismatch of its own)
+        let ctx = if kind == "unary-minus" { 1 + g.t.below(4) } else { g.t.below(5) };
+        let (w, prefix, suffix, twin): (Wrap, &str, &str, &str) = match ctx {
+            0 => (Wrap { kind: "list-int".into(), open: vec![format!("zl{} :: [", k), "    1,".into()], close: vec!["    3,".into(), "]".into()], inner: 1 }, "", ",", "0"),
+            1 => (
+                Wrap { kind: "list-str".into(), open: vec![format!("zl{} :: [", k), "    \"a".into(), "b\",".into()], close: vec!["    \"c\",".into(), "]".into()], inner: 1 },
+                "",
+                ",",
+                "\"z\"",
+            ),
+            2 => (Wrap { kind: "call-arg".into(), open: vec![format!("zg{} :: as_str(", k)], close: vec![")".into()], inner: 1 }, "", "", "0"),
+            3 => (Wrap { kind: "paren-group".into(), open: vec![format!("zg{} :: (", k)], close: vec![")".into()], inner: 1 }, "", "", "0"),
+            _ => (Wrap { kind: "string-tail".into(), open: vec![format!("zs{} :: \"first", k), "middle".into()], close: vec![], inner: 1 }, "last\" + ", "", "\"z\""),
+        };
+        let dangling_ok = ctx <= 1 || ctx == 4;
+        p.wraps.push(w);
+        p.prefix = prefix.into();
+        p.suffix = suffix.into();
+        p.twin = twin.into();
+        match kind {
+            "syntax" => {
+                let n = SYNTAX_EXPR.len() + if dangling_ok { SYNTAX_EXPR_DANGLING.len() } else { 0 };
+                let i = g.t.below(n);
+                p.spelling = format!("expr{}", i);
+                p.line = if i < SYNTAX_EXPR.len() { SYNTAX_EXPR[i].into() } else { SYNTAX_EXPR_DANGLING[i - SYNTAX_EXPR.len()].into() };
+                if ctx == 2 && i == 0 {
+                    // `f(1 2)` is a call with two arguments: the comma is optional
+                    p.spelling = "expr1".into();
+                    p.line = SYNTAX_EXPR[1].into();
+                }
+            }
+            "unary-minus" => {
+                let i = g.t.below(UNARY_MINUS.len());
+                p.spelling = format!("expr{}", i);
+                p.line = if ctx == 4 { format!("({})", UNARY_MINUS[i]) } else { UNARY_MINUS[i].into() };
+            }
+            "unresolved" => {
+                let i = g.t.below(UNRESOLVED_EXPR.len());
+                p.spelling = format!("expr{}", i);
+                p.line = UNRESOLVED_EXPR[i].into();
+            }
+            _ => {
+                let i = g.t.below(OPERATOR_EXPR.len());
+                p.spelling = format!("expr{}", i);
+                p.line = if ctx == 4 { format!("({})", OPERATOR_EXPR[i]) } else { OPERATOR_EXPR[i].into() };
+            }
+        }
+        decorate(g, &mut p);
+        return p;
+    }
     match kind {
         "syntax" => {
             if in_block && g.t.chance(1, 3) {
@@ -967,6 +1042,11 @@ fn gen_plant(g: &mut G, files: &mut Vec<FileGen>, pfile: usize, avoid_known: boo
             let i = g.t.below(ANNOTATION_DEF.len());
             p.spelling = format!("def{}", i);
             p.line = sub(ANNOTATION_DEF[i]);
+        }
+        "unary-minus" => {
+            let i = g.t.below(UNARY_MINUS.len());
+            p.spelling = format!("def{}", i);
+            p.line = if g.t.bool() { format!("{} :: {}", x, UNARY_MINUS[i]) } else { format!("{} :: 1 + {}", x, UNARY_MINUS[i]) };
         }
         "break" => {
             p.spelling = "break".into();
